@@ -5,7 +5,7 @@ import tempfile
 
 import numpy as np
 
-from .. import repo, core, gen, wire
+from .. import repo, core, gen, wire, fsio
 from ..base import BaseCheck
 from lapy import TriaMesh, TetMesh, io as lio
 
@@ -114,10 +114,10 @@ class Check(BaseCheck):
     rule = ("triangle and tetra meshes x vertex dtypes written with LaPy's VTK writers (file compared line by line with the model writer) and read "
             "back; every proper line-prefix of each written file through both readers; foreign files (CELLS keyword, comments, double, triangle "
             "strips, OFF, Gmsh 2.2 ASCII with 1-based nodes, wrong-kind files); .ev files with every field subset, (n,k) eigenvector shapes incl. "
-            "k=1 and n=1, float32/float64; vertex-function files; FreeSurfer surfaces through nibabel; distinct by hash of the file text")
+            "k=1 and n=1, float32/float64; vertex-function files; FreeSurfer binary surfaces (3 footer variants x stamps x scales), every byte-prefix truncation, wrong magic, dev-format single newline; distinct by hash of the file text")
     trusted = ["Python's str()/float() round trip and C strtod as the number formatting / parsing pair (parameter of the model)",
                "np.fromfile text mode as observed (count numeric tokens, ValueError on unmatched data, trailing white space consumed)",
-               "nibabel write_geometry and the bundled _read_geometry for FreeSurfer files: compared as a round trip on the implementation only (binary layout not modelled)",
+               "nibabel write_geometry is taken as the definition of the FreeSurfer binary layout (the model's writeFs is compared with it byte for byte); conversion of footer numbers (astype) and non-ASCII text are not modelled",
                "OS-level I/O errors are not modelled"]
 
     def correspond(self, drv, stats):
@@ -163,6 +163,39 @@ class Check(BaseCheck):
                     fails.append(core.Failure("correspondence", "VTK reader (wrong kind) vs model", "%s: impl %s model %s" % (name, a[0], b[0]), dict(kind=other, lines=lines, name=name)))
                 if len(fails) > 5:
                     return fails
+            # FreeSurfer binary surfaces: the writer's byte layout (nibabel = format definition), LaPy's bundled reader, every truncation
+            for fc in fs_cases(rng, 4 if self.quick else 40):
+                p = tmp.path("lh.surf")
+                data = fsio.write_impl(p, fc["stamp"], fc["v"], fc["t"], fc["info"])
+                stats.case("fs" + str(len(data)) + fc["stamp"], cls=["fs:" + fc["name"], "fs-footer:%s" % (None if fc["info"] is None else list(fc["info"]["head"]))],
+                           sample=dict(kind="fs", name=fc["name"], bytes=len(data)))
+                bits = [int(x) for x in np.asarray(fc["v"], dtype=np.float64).astype(">f4").astype(np.float32).reshape(-1).view(np.uint32)]
+                w = fsio.model_write(drv, fc["stamp"], bits, [int(x) for x in np.asarray(fc["t"]).reshape(-1)], fsio.info_tokens(fc["info"]))
+                if w != data:
+                    fails.append(core.Failure("correspondence", "FreeSurfer writer layout vs model", "%s: %d vs %s bytes" % (fc["name"], len(data), None if w is None else len(w)), dict(kind="fs"))); continue
+                # through the public API: write_fssurf / read_fssurf
+                with core.quiet():
+                    mm = TriaMesh(fc["v"], fc["t"], fsinfo=fc["info"])
+                    mm.write_fssurf(p)
+                back = core.call(TriaMesh.read_fssurf, p)
+                mb = fsio.model_read(drv, open(p, "rb").read())
+                if back[0] != "ok" or mb[0] != "ok" or not np.array_equal(np.asarray(back[1].t).reshape(-1), mb[3]) or \
+                        [int(x) for x in np.asarray(back[1].v, dtype=np.float32).reshape(-1).view(np.uint32)] != mb[2]:
+                    fails.append(core.Failure("correspondence", "write_fssurf / read_fssurf vs model", fc["name"], dict(kind="fs"))); continue
+                cuts = range(len(data) + 1) if (not self.quick or len(data) < 500) else sorted(set(range(0, len(data) + 1, 7)) | set(range(len(data) - 200, len(data) + 1)))
+                variants = [(data[:c], "prefix %d/%d" % (c, len(data))) for c in cuts]
+                variants.append((b"\xff\xff\xfd" + data[3:], "bad magic"))
+                variants.append((data.replace(b"\n\n", b"\n", 1), "single newline after the stamp (dev format)"))
+                for dd, what in variants:
+                    with open(p, "wb") as f:
+                        f.write(dd)
+                    a = fsio.read_impl(p); b = fsio.model_read(drv, dd)
+                    stats.monitor("FreeSurfer reader calls compared")
+                    if b[0] == "err" and b[1] == "NonAscii":
+                        continue
+                    if not fsio.same(a, b, dd):
+                        fails.append(core.Failure("correspondence", "FreeSurfer reader vs model", "%s %s: impl %s model %s" % (fc["name"], what, a[:2], b[:2]), dict(kind="fs")))
+                        break
             # foreign files
             for kind, lines, nm in foreign_files(rng):
                 a = lapy_read(kind, lines, tmp, ".msh" if kind == "gmsh" else (".off" if kind == "off" else ".vtk")); b = model_read(drv, kind, lines)
@@ -297,6 +330,19 @@ class Check(BaseCheck):
                     b = core.call(TriaMesh.read_fssurf, p)
                     if b[0] != "ok" or not np.array_equal(b[1].t, t) or not np.array_equal(np.asarray(b[1].v, np.float32), (v * 40).astype(np.float32)):
                         return core.Violation("fs", "FreeSurfer surface not read back identically", dict(kind="fs"))
+                    # truncated or wrong-kind files never yield a different mesh
+                    data = open(p, "rb").read()
+                    mesh_end = 3 + data.index(b"\n\n") - 3 + 2 + 8 + 12 * len(v) + 12 * len(t)
+                    for cut in list(range(0, mesh_end, max(1, mesh_end // 60))) + [mesh_end - 1]:
+                        with open(p, "wb") as f:
+                            f.write(data[:cut])
+                        bb = core.call(TriaMesh.read_fssurf, p)
+                        if bb[0] == "ok" and bb[1] is not None:
+                            return core.Violation("truncation", "FreeSurfer file truncated after %d of %d bytes still yields a mesh" % (cut, len(data)), dict(kind="fs"))
+                    with open(p, "wb") as f:
+                        f.write(b"\xff\xff\xfd" + data[3:])
+                    if core.call(TriaMesh.read_fssurf, p)[0] == "ok":
+                        return core.Violation("wrong-kind", "file with a wrong magic number accepted as FreeSurfer surface", dict(kind="fs"))
                     if fsinfo is not None:
                         bi = b[1].fsinfo
                         for key in ("volume", "voxelsize", "xras", "yras", "zras", "cras"):
@@ -304,6 +350,21 @@ class Check(BaseCheck):
                                 return core.Violation("fs", "header field %s not preserved" % key, dict(kind="fs"))
                 return None
         return None
+
+
+def fs_cases(rng, n):
+    """small triangle meshes with FreeSurfer header dictionaries (none / [20] / [2,0,20]) and creation stamps"""
+    out = []
+    for k in range(n):
+        v, t = [gen.octahedron(), gen.grid(2, 2), gen.icosphere(1), gen.tetra_surface()][k % 4]
+        v = np.asarray(v, float) * float(rng.choice([1.0, 37.5, 1e-3])) + rng.normal(size=3)
+        info = None
+        if k % 3:
+            info = {"head": np.array([20] if k % 3 == 1 else [2, 0, 20], dtype=np.int32), "valid": "1  # volume info valid", "filename": "../mri/filled-pretess%d.mgz" % k,
+                    "volume": np.array([256, 256, 128 + k]), "voxelsize": rng.uniform(0.5, 1.5, 3), "xras": np.array([-1.0, 0, 0]), "yras": np.array([0, 0, -1.0]),
+                    "zras": np.array([0, 1.0, 0]), "cras": rng.normal(size=3) * 10}
+        out.append(dict(v=v, t=t, info=info, stamp=["created by someone on Tue Jan  1 00:00:00 2030", "", "x"][k % 3], name=["octa", "grid", "ico1", "tetra"][k % 4]))
+    return out
 
 
 def foreign_expected(rng):
